@@ -99,12 +99,13 @@ type Site struct {
 }
 
 type FileSite struct {
-	Name      string `json:"site"`
-	File      string `json:"file"`
-	Line      int    `json:"line"`
-	SkipExist bool   `json:"skip_exist"`
-	FromEx    bool   `json:"reachable_from_example"`
-	FromGen   bool   `json:"reachable_from_gen"`
+	PathShapes [][]string `json:"path_shapes,omitempty"` // one per assignment that can reach Path: G | L:<lit> | S | O
+	Name       string     `json:"site"`
+	File       string     `json:"file"`
+	Line       int        `json:"line"`
+	SkipExist  bool       `json:"skip_exist"`
+	FromEx     bool       `json:"reachable_from_example"`
+	FromGen    bool       `json:"reachable_from_gen"`
 }
 
 // Ambient is a use of an input that is not the design or the command line.
@@ -977,6 +978,162 @@ func oneEntryLiteral(p *packages.Package, e ast.Expr) bool {
 	return one && !mutated
 }
 
+// pathShapes: how the Path of a codegen.File literal is computed. Every expression that
+// can reach the Path field (the field value itself, or every assignment to the variable
+// it names, inside the enclosing declaration) must be filepath.Join(args...); each
+// argument is classified G (codegen.Gendir), L:<text> (string literal), S (a SnakeCase
+// result: x.PathName, codegen.SnakeCase(...), or a variable only ever assigned those),
+// O (anything else). Anything unrecognised yields the single shape [O].
+func pathShapes(p *packages.Package, decl ast.Node, lit *ast.CompositeLit) [][]string {
+	info := p.TypesInfo
+	assignments := func(o types.Object) []ast.Expr {
+		var out []ast.Expr
+		ast.Inspect(decl, func(n ast.Node) bool {
+			switch x := n.(type) {
+			case *ast.AssignStmt:
+				for i, l := range x.Lhs {
+					id, ok := l.(*ast.Ident)
+					if !ok || !(info.Defs[id] == o || info.Uses[id] == o) {
+						continue
+					}
+					if len(x.Rhs) == len(x.Lhs) {
+						out = append(out, x.Rhs[i])
+					} else {
+						out = append(out, nil)
+					}
+				}
+			case *ast.ValueSpec:
+				for i, nm := range x.Names {
+					if info.Defs[nm] == o && i < len(x.Values) {
+						out = append(out, x.Values[i])
+					}
+				}
+			}
+			return true
+		})
+		return out
+	}
+	var isSnake func(e ast.Expr, depth int) bool
+	isSnake = func(e ast.Expr, depth int) bool {
+		switch x := ast.Unparen(e).(type) {
+		case *ast.SelectorExpr:
+			return x.Sel.Name == "PathName"
+		case *ast.CallExpr:
+			switch f := x.Fun.(type) {
+			case *ast.SelectorExpr:
+				return f.Sel.Name == "SnakeCase"
+			case *ast.Ident:
+				return f.Name == "SnakeCase"
+			}
+		case *ast.Ident:
+			if depth > 2 {
+				return false
+			}
+			o := info.Uses[x]
+			if o == nil {
+				return false
+			}
+			as := assignments(o)
+			if len(as) == 0 {
+				return false
+			}
+			for _, a := range as {
+				if a == nil || !isSnake(a, depth+1) {
+					return false
+				}
+			}
+			return true
+		}
+		return false
+	}
+	joinArgs := func(e ast.Expr) ([]string, bool) {
+		call, ok := ast.Unparen(e).(*ast.CallExpr)
+		if !ok {
+			return nil, false
+		}
+		sel, ok := call.Fun.(*ast.SelectorExpr)
+		if !ok || sel.Sel.Name != "Join" {
+			return nil, false
+		}
+		if pid, ok := sel.X.(*ast.Ident); !ok {
+			return nil, false
+		} else if pn, ok := info.Uses[pid].(*types.PkgName); !ok || (pn.Imported().Path() != "path/filepath" && pn.Imported().Path() != "path") {
+			return nil, false
+		}
+		if call.Ellipsis != token.NoPos {
+			return nil, false
+		}
+		var out []string
+		for _, a := range call.Args {
+			a = ast.Unparen(a)
+			switch {
+			case func() bool {
+				if s, ok := a.(*ast.SelectorExpr); ok && s.Sel.Name == "Gendir" {
+					return true
+				}
+				if id, ok := a.(*ast.Ident); ok && id.Name == "Gendir" {
+					return true
+				}
+				return false
+			}():
+				out = append(out, "G")
+			case func() bool {
+				tv, ok := info.Types[a]
+				return ok && tv.Value != nil && tv.Value.Kind() == constant.String
+			}():
+				out = append(out, "L:"+constant.StringVal(info.Types[a].Value))
+			case isSnake(a, 0):
+				out = append(out, "S")
+			default:
+				out = append(out, "O")
+			}
+		}
+		return out, true
+	}
+	var pathExpr ast.Expr
+	for _, el := range lit.Elts {
+		if kv, ok := el.(*ast.KeyValueExpr); ok {
+			if kid, ok := kv.Key.(*ast.Ident); ok && kid.Name == "Path" {
+				pathExpr = kv.Value
+			}
+		}
+	}
+	if pathExpr == nil {
+		return [][]string{{"O"}}
+	}
+	if sh, ok := joinArgs(pathExpr); ok {
+		return [][]string{sh}
+	}
+	id, ok := ast.Unparen(pathExpr).(*ast.Ident)
+	if !ok {
+		return [][]string{{"O"}}
+	}
+	as := assignments(info.Uses[id])
+	if len(as) == 0 {
+		return [][]string{{"O"}}
+	}
+	var out [][]string
+	for _, a := range as {
+		if a == nil {
+			return [][]string{{"O"}}
+		}
+		sh, ok := joinArgs(a)
+		if !ok {
+			return [][]string{{"O"}}
+		}
+		out = append(out, sh)
+	}
+	return out
+}
+
+func coqBytes(s string) string {
+	parts := make([]string, len(s))
+	for i := 0; i < len(s); i++ {
+		parts[i] = fmt.Sprint(s[i])
+	}
+	return "[" + strings.Join(parts, ";") + "]%N"
+}
+
 // ---------------------------------------------------------------- main
 
 func main() {
@@ -988,6 +1145,7 @@ func main() {
 
 	var allow []AllowEntry
 	ambientAllow := map[string]string{}
+	pathAllow := map[string]string{}
 	var ambients []Ambient
 	if *allowPath != "" {
 		b, err := os.ReadFile(*allowPath)
@@ -998,6 +1156,10 @@ func main() {
 					Site string `json:"site"`
 					Why  string `json:"why"`
 				} `json:"ambient"`
+				Paths []struct {
+					Site string `json:"site"`
+					Why  string `json:"why"`
+				} `json:"paths"`
 			}
 			if err := json.Unmarshal(b, &f); err != nil {
 				fmt.Fprintln(os.Stderr, "allow-list unreadable:", err)
@@ -1006,6 +1168,9 @@ func main() {
 			allow = f.Entries
 			for _, a := range f.Ambient {
 				ambientAllow[a.Site] = a.Why
+			}
+			for _, a := range f.Paths {
+				pathAllow[a.Site] = a.Why
 			}
 		}
 	}
@@ -1124,7 +1289,7 @@ func main() {
 								}
 								fileLitFn[len(fsites)] = fkey
 								fsites = append(fsites, FileSite{Name: fmt.Sprintf("%s:%s#%d", rel, disp, fidx), File: relFile,
-									Line: p.Fset.Position(x.Pos()).Line, SkipExist: skip})
+									Line: p.Fset.Position(x.Pos()).Line, SkipExist: skip, PathShapes: pathShapes(p, d, x)})
 								fidx++
 							}
 						}
@@ -1250,7 +1415,7 @@ func main() {
 	if *outV != "" {
 		var b strings.Builder
 		b.WriteString("(* GENERATED by translate/c09 from the goa source tree on every run of bin/check C09. Do not edit. *)\n")
-		b.WriteString("From GenFS Require Import Model.\nFrom Coq Require Import List String.\nImport ListNotations.\nOpen Scope string_scope.\n\n")
+		b.WriteString("From GenFS Require Import Model.\nFrom Coq Require Import List String NArith.\nImport ListNotations.\nOpen Scope string_scope.\n\n")
 		b.WriteString("Definition mapranges : list site := [\n")
 		for i, s := range sites {
 			sep := ";"
@@ -1267,7 +1432,32 @@ func main() {
 			}
 			fmt.Fprintf(&b, "  mk_file_site %q %v %v %v%s\n", f.Name, f.FromEx, f.FromGen, f.SkipExist, sep)
 		}
-		b.WriteString("].\n\nDefinition ambient_sites : list ambient_site := [\n")
+		b.WriteString("].\n\n(* how the Path of every codegen.File literal reachable from the gen generators is computed *)\nDefinition gen_path_sites : list path_site := [\n")
+		var plines []string
+		for _, f := range fsites {
+			if !f.FromGen {
+				continue
+			}
+			for k, sh := range f.PathShapes {
+				var cs []string
+				for _, c := range sh {
+					switch {
+					case c == "G":
+						cs = append(cs, "PGendir")
+					case c == "S":
+						cs = append(cs, "PSvc")
+					case strings.HasPrefix(c, "L:"):
+						cs = append(cs, "PLit "+coqBytes(c[2:]))
+					default:
+						cs = append(cs, "POther")
+					}
+				}
+				_, insp := pathAllow[f.Name]
+				plines = append(plines, fmt.Sprintf("  mk_path_site %q [%s] %v", fmt.Sprintf("%s@%d", f.Name, k), strings.Join(cs, "; "), insp))
+			}
+		}
+		b.WriteString(strings.Join(plines, ";\n"))
+		b.WriteString("\n].\n\nDefinition ambient_sites : list ambient_site := [\n")
 		for i, a := range ambients {
 			sep := ";"
 			if i == len(ambients)-1 {
@@ -1285,6 +1475,23 @@ func main() {
 		if !insensitive[s.Shape] && s.Shape != "inspected_harmless" {
 			bad++
 			fmt.Printf("SENSITIVE %s shape=%s effects=%v %s:%d fingerprint=%s %s\n", s.Name, s.Shape, s.Effects, s.File, s.Line, s.Fingerprint, s.Why)
+		}
+	}
+	for _, f := range fsites {
+		if !f.FromGen {
+			continue
+		}
+		for _, sh := range f.PathShapes {
+			ok := len(sh) >= 3 && sh[0] == "G"
+			for _, c := range sh[min(1, len(sh)):] {
+				if c == "O" || c == "G" || c == "L:" || c == "L:." || c == "L:.." || strings.Contains(c[1:], "/") {
+					ok = false
+				}
+			}
+			if _, insp := pathAllow[f.Name]; !ok && !insp {
+				bad++
+				fmt.Printf("PATH %s shape=%v %s:%d\n", f.Name, sh, f.File, f.Line)
+			}
 		}
 	}
 	for _, a := range ambients {
